@@ -40,10 +40,12 @@ IsQuoted(t) == t \in {"'a'", "\\a", "\"b\""}
 (* tokens after which the next token is in command position *)
 OpensCmd(t) == t \in Operators \cup {"if", "then", "else", "elif", "do", "while", "until", "{", "!"}
 
+Count(s, t) == Cardinality({i \in 1..Len(s) : s[i] = t})
 RECURSIVE SeqsUpTo(_, _)
 SeqsUpTo(S, n) == IF n = 0 THEN {<<>>} ELSE SeqsUpTo(S, n - 1) \cup {Append(s, S[i]) : s \in SeqsUpTo(S, n - 1), i \in 1..Len(S)}
 
-Values == [val : SeqsUpTo(ValToks, MaxVal) \ {<<>>}, blank : BOOLEAN]
+\* an empty value is allowed (with blank: the value is a single blank)
+Values == [val : SeqsUpTo(ValToks, MaxVal), blank : BOOLEAN]
 Tables == UNION {[D -> Values] : D \in SUBSET Names}
 
 Tok(t, org, chk) == [tok |-> t, org |-> org, chk |-> chk]
@@ -69,7 +71,8 @@ Step ==
                 /\ UNCHANGED <<out, cmdpos, respos>>
        ELSE /\ inp' = rest
             /\ out' = Append(out, h.tok)
-            /\ LET opens == h.tok \in Operators \/ (cmdpos /\ respos /\ OpensCmd(h.tok)) IN   \* a reserved word counts only where it is recognised
+            /\ LET closes == h.tok = ")" /\ Count(out, "$(") > Count(out, ")")             \* the end of a command substitution: back inside a word
+                   opens == ~closes /\ (h.tok \in Operators \/ h.tok = "$(" \/ (cmdpos /\ respos /\ OpensCmd(h.tok))) IN   \* a reserved word counts only where it is recognised
                /\ cmdpos' = (opens \/ (IsAssign(h.tok) /\ cmdpos))                             \* still in the command prefix
                /\ respos' = opens
     /\ steps' = steps + 1
